@@ -248,6 +248,47 @@ func run(c Case) (pbt.Outcome, error) {
 			if p != nil && p == interface{}(sentinel) && len(cbErrs) == before {
 				errs.Addf("op %d: sentinel panic without a callback call?!", oi)
 			}
+			// a rejected second registration (same kind, other tag keys) must leave the first,
+			// legitimate family exposed with what was recorded on it
+			if strings.HasSuffix(op.What, "-other-tagkeys") && (p == nil || p == interface{}(sentinel)) {
+				if p2 := try(func() { tally.VerifReportOnce(root) }); p2 != nil && p2 != interface{}(sentinel) {
+					errs.Addf("op %d: report pass after the conflict panicked: %v", oi, p2)
+				}
+				fams, _ := reg.Gather()
+				found := false
+				for _, f := range fams {
+					if f.GetName() != name {
+						continue
+					}
+					found = true
+					okv := false
+					for _, m := range f.Metric {
+						lbl := map[string]string{}
+						for _, lp := range m.Label {
+							lbl[lp.GetName()] = lp.GetValue()
+						}
+						if labelKey(lbl) != labelKey(labels) {
+							continue
+						}
+						switch first {
+						case "counter":
+							okv = m.GetCounter().GetValue() == 1
+						case "gauge":
+							okv = m.GetGauge().GetValue() == 1
+						case "timer":
+							okv = m.GetSummary().GetSampleCount() == 2 || m.GetHistogram().GetSampleCount() == 2
+						case "histogram":
+							okv = m.GetHistogram().GetSampleCount() == 1
+						}
+					}
+					if !okv {
+						errs.Addf("op %d (%s): after the rejected registration the first %s %q%v no longer shows what was recorded on it: %v", oi, op.What, first, name, labels, f)
+					}
+				}
+				if !found {
+					errs.Addf("op %d (%s): after the rejected registration the family %q of the first, accepted %s is not exposed at all", oi, op.What, name, first)
+				}
+			}
 		}
 		if p != nil {
 			if p == interface{}(sentinel) && c.PanicCB {
@@ -359,7 +400,7 @@ func run(c Case) (pbt.Outcome, error) {
 func TestC17(t *testing.T) {
 	pbt.Main(t, pbt.Prop[Case]{
 		ID: "C17", Name: "prometheus",
-		Rule: "rapid-generated histories (1..30 ops) on a tally root whose cached reporter is the Prometheus reporter on a fresh registry (separator '_', Prometheus sanitizer; timers as summaries or histograms; error callback returning or panicking with a sentinel): counters (non-negative deltas), gauges (hostile float bits), timers, value and duration histograms with strictly increasing finite specs and samples on / one ulp or ns above / around the bounds, 1..4 tagged scopes with the same tag keys and different values, report passes, and conflict programs (a name reused for another kind: counter/gauge, timer/histogram, counter/timer, histogram/counter; or with other tag keys) whose result is then used through every method. Oracle after a final pass: Gather() shows counter == sum, gauge == last update (bits), cumulative bucket counts == #samples <= bound with bounds == spec (durations in seconds) and total == #samples, timer count == #values, one family per name and one series per tag-value combination; conflicts: no panic other than the sentinel, at any point. Non-trivial: a sample equal to a bound, or >=2 series in a family, or a cross-kind/tag-key conflict. Distinct: FNV-64 of the case JSON.",
+		Rule: "rapid-generated histories (1..30 ops) on a tally root whose cached reporter is the Prometheus reporter on a fresh registry (separator '_', Prometheus sanitizer; timers as summaries or histograms; error callback returning or panicking with a sentinel): counters (non-negative deltas), gauges (hostile float bits), timers, value and duration histograms with strictly increasing finite specs and samples on / one ulp or ns above / around the bounds, 1..4 tagged scopes with the same tag keys and different values, report passes, and conflict programs (a name reused for another kind: counter/gauge, timer/histogram, counter/timer, histogram/counter; or with other tag keys) whose result is then used through every method. Oracle after a final pass: Gather() shows counter == sum, gauge == last update (bits), cumulative bucket counts == #samples <= bound with bounds == spec (durations in seconds) and total == #samples, timer count == #values, one family per name and one series per tag-value combination; conflicts: no panic other than the sentinel, at any point, and a rejected registration with other tag keys leaves the first, accepted family exposed with its values. Non-trivial: a sample equal to a bound, or >=2 series in a family, or a cross-kind/tag-key conflict. Distinct: FNV-64 of the case JSON.",
 		Gen:  gen, Run: run,
 	})
 }
